@@ -169,6 +169,9 @@ func init() {
 		},
 		"vMapOrder": func(fr *frame, args []value) value {
 			fr.i.ctx.mapAll = args[0].(bool)
+			if fr.i.ctx.mapAll {
+				fr.i.ctx.mapEpoch++
+			}
 			return nil
 		},
 		"vExpectPanic": func(fr *frame, args []value) (res value) {
